@@ -297,7 +297,7 @@ func (e *vE2ERun) setupVM(svm *test.StubVM) {
 			svm.Lock()
 			svm.Broken = time.Now()
 			svm.Unlock()
-			time.Sleep(3 * time.Second)
+			<-e.release // this crunch-run never finishes by itself: only the dispatcher can end the container
 		}
 		if scn.ExecMs > 0 {
 			time.Sleep(time.Duration(e.rndInt(scn.ExecMs)) * time.Millisecond)
